@@ -22,6 +22,7 @@ var c19Stmts = []string{
 	"function outer(p)\n  if p then\n  end\n  if not p then\n  end\nend", "do\n  local function hidden1() end\n  hidden1()\nend",
 	"function outer2()\n  local function hidden2() end\n  return hidden2\nend", "if a then\n  function gnested() end\nend",
 	"local function lo(p)\n  if p then\n    p = 1\n  end\n  while p do\n    p = nil\n  end\n  return p\nend",
+	"ta = {}\nfunction ta.f1() end\nfunction ta:m1() end", "tb = {}\nfunction tb.g1() end\nfunction tb.g2() end",
 }
 
 type c19Decl struct {
@@ -324,9 +325,67 @@ func init() {
 		Flavour:     "prod+overlay", QuickBudgetS: 120, ThoroughBudgetS: 900,
 		Spaces: func(tier string) []*core.Space {
 			if tier == "thorough" {
-				return []*core.Space{c19Space(3)}
+				return []*core.Space{c19Space(3), c19LargeSpace()}
 			}
-			return []*core.Space{c19Space(2)}
+			return []*core.Space{c19Space(2), c19LargeSpace()}
 		},
 	})
+}
+
+// files with more symbols than the per-file cut of workspace/symbol (200): the exact name of every function must still
+// be found at its declaration
+func c19LargeSpace() *core.Space {
+	sizes := []int{150, 199, 200, 201, 250, 400}
+	name := "files-with-more-symbols-than-the-result-cut"
+	build := func(n int) string {
+		var sb strings.Builder
+		for k := 1; k <= n; k++ {
+			fmt.Fprintf(&sb, "function gfun%03d() end\n", k)
+		}
+		return sb.String()
+	}
+	return &core.Space{
+		Name: name, N: int64(len(sizes)), Chunk: 1, RecycleEvery: 6,
+		Describe: func(i int64) interface{} {
+			return map[string]interface{}{"m.lua": fmt.Sprintf("%d lines: function gfun001() end ... function gfun%03d() end", sizes[i], sizes[i])}
+		},
+		Run: func(i int64, r *core.Result) {
+			n := sizes[i]
+			text := build(n)
+			r.Evaluated++
+			r.Nontrivial++
+			root := drv.NewWorkspace(map[string]string{"m.lua": text, "o.lua": "function og() end\nov = 1\n"})
+			defer drv.RemoveWorkspace(root)
+			s, err := drv.Start(root, drv.Options{})
+			if err != nil {
+				r.Fail(name, i, "server-start-failed", fmt.Sprint(n), map[string]interface{}{"error": err.Error()})
+				return
+			}
+			defer s.Close()
+			s.Open("m.lua", text)
+			for k := 1; k <= n; k++ {
+				q := fmt.Sprintf("gfun%03d", k)
+				ws, err := s.WsSymbols(q)
+				r.Transitions++
+				if err != nil {
+					continue
+				}
+				r.States++
+				hit := false
+				for _, w := range ws {
+					if w.Name == q && s.Rel(w.Location.URI) == "m.lua" && w.Location.Range.Start.Line == k-1 {
+						hit = true
+					}
+				}
+				if !hit {
+					sig := "exact-name-not-found-in-a-large-file"
+					coreS := fmt.Sprintf("%s | %d functions", sig, n)
+					r.Outcome(sig)
+					r.Fail(name, i, sig, coreS, map[string]interface{}{"failure_core": coreS, "functions_in_file": n, "query": q, "answers": len(ws)})
+					return
+				}
+			}
+			r.Outcome("every-exact-name-found")
+		},
+	}
 }
